@@ -419,3 +419,18 @@ Definition expected_Type_WriteTo : cfun17 :=
       CReturn ["n1 + n2 + n3 + n4"; "err"] ] [];
      CReturn ["n1 + n2 + n3"; "nil"] ]).
 
+(* every index / slice expression of ClearString, String and TransCtrlSeq (what can panic with an
+   out-of-range error), with the conditions that enclose it *)
+Definition expected_render_sites : list site17 :=
+  [
+    Site "ClearString" "index" "args" "i" "" ["m.Translate != """""; "i, v := range m.With"; "case Message"];
+    Site "ClearString" "index" "args" "i" "" ["m.Translate != """""; "i, v := range m.With"; "case string"];
+    Site "ClearString" "index" "args" "i" "" ["m.Translate != """""; "i, v := range m.With"; "case "];
+    Site "ClearString" "index" "translateMap" "m.Translate" "" ["m.Translate != """""];
+    Site "ClearString" "index" "m.Extra" "i" "" ["m.Extra != nil"; "i := range m.Extra"];
+    Site "String" "index" "colors" "m.Color" "" ["m.Color != """""];
+    Site "String" "slice" "format.String()" "" "format.Len() - 1" ["format.Len() > 0"];
+    Site "String" "index" "translateMap" "m.Translate" "" ["m.Translate != """""];
+    Site "String" "index" "m.Extra" "i" "" ["m.Extra != nil"; "i := range m.Extra"];
+    Site "TransCtrlSeq" "index" "fmtCode" "str[2]" "" ["func"];
+    Site "TransCtrlSeq" "index" "str" "2" "" ["func"] ].
